@@ -43,7 +43,7 @@ def versions_for(tier):
 
 def plan(tier, seed):
     units = []
-    for g in ['unary', 'subsequence2', 'subsequence3', 'insert-remove', 'index-of', 'comma-range', 'predicates',
+    for g in ['unary', 'subsequence2', 'subsequence3', 'insert-remove', 'index-of', 'distinct-mixed', 'comma-range', 'predicates',
               'flwor', 'compose', 'equivalences', 'string-join', 'numeric-seqs']:
         for ver in versions_for(tier):
             units.append({'group': g, 'ver': ver})
@@ -196,6 +196,17 @@ def run_unit(unit, tier, acc):
                 check(ver, ('call', 'remove', [s, V('p')]), {'s': sq, 'p': [p]}, w, acc, g)
                 for i in ins:
                     check(ver, ('call', 'insert-before', [s, V('p'), V('i')]), {'s': sq, 'p': [p], 'i': i}, w, acc, g)
+    elif g == 'distinct-mixed':
+        # numerically equal values of different types, in every order: one representative per eq-class, whichever comes first
+        nums = [1, 1.0, Fraction(1), 2, 2.0, Fraction(5, 2), 2.5, math.nan, True, 'a']
+        for n in range(0, 4 if tier == 'quick' else 5):
+            for t in itertools.product(nums, repeat=n):
+                env = {'s': list(t)}
+                check(ver, ('call', 'distinct-values', [s]), env, w, acc, g, multiset=True)
+                check(ver, ('call', 'count', [('call', 'distinct-values', [s])]), env, w, acc, g)
+                if n <= 2:
+                    check(ver, ('call', 'count', [('call', 'distinct-values', [('seq', [s, L(1), s])])]), env, w, acc, g)
+        acc.sample({'version': ver, 'expression': 'distinct-values($s)', 's': '(2, 2.0e0, 2.5, 2.50)'})
     elif g == 'index-of':
         keys = [1, 2, Fraction(3, 2), 1.0, 'a', math.nan, '3', 3, SL.U('3'), SL.U('a')]
         for sq in seqs:
@@ -230,6 +241,20 @@ def run_unit(unit, tier, acc):
             check(ver, ('filter', s, ('call', 'false', [])), env, w, acc, g)
             for v in [1, 2, 'a', 3]:
                 check(ver, ('filter', s, ('gcmp', '=', ('ctx',), L(v))), env, w, acc, g)
+            # numeric predicates whose value depends on the focus: several items can satisfy value = position()
+            check(ver, ('filter', s, ('pos',)), env, w, acc, g)
+            check(ver, ('filter', s, ('arith', '+', ('arith', '-', ('last',), ('pos',)), L(1))), env, w, acc, g)
+            if all(isinstance(x, (int, float, Fraction)) and not isinstance(x, bool) for x in sq):
+                check(ver, ('filter', s, ('ctx',)), env, w, acc, g)
+                check(ver, ('filter', s, ('arith', '-', ('ctx',), L(1))), env, w, acc, g)
+                check(ver, ('filter', ('filter', s, ('ctx',)), ('pos',)), env, w, acc, g)
+        # the same on numeric sequences that are long enough for several hits
+        for n in range(0, 5 if tier == 'quick' else 6):
+            for t in itertools.product([1, 2, 3, 2.0, Fraction(3, 2)], repeat=n):
+                env = {'s': list(t)}
+                check(ver, ('filter', s, ('ctx',)), env, w, acc, g)
+                check(ver, ('filter', s, ('arith', '-', ('ctx',), L(1))), env, w, acc, g)
+                check(ver, ('call', 'count', [('filter', s, ('ctx',))]), env, w, acc, g)
         acc.sample({'version': ver, 'expression': '$s[position() >= 2]', 's': SB.show(seqs[100])})
     elif g == 'flwor':
         for sq in seqs:
